@@ -90,7 +90,9 @@ func buildSampler(c *SCfg, rec *[]recCall, ids *int) *built {
 	switch c.Kind {
 	case "basic":
 		s := &zerolog.BasicSampler{N: c.N}
-		zerolog.VerifSetBasicCounter(s, c.Cnt)
+		if c.Cnt != 0 && !zerolog.VerifSetBasicCounter(s, c.Cnt) {
+			panic("preset of a BasicSampler counter requested although presetOK is false")
+		}
 		b.s = s
 	case "burst":
 		b.next = buildSampler(c.Next, rec, ids)
@@ -98,7 +100,9 @@ func buildSampler(c *SCfg, rec *[]recCall, ids *int) *built {
 		if b.next != nil {
 			s.NextSampler = wrap(b.next)
 		}
-		zerolog.VerifSetBurstState(s, c.Cnt, c.ResetAt)
+		if (c.Cnt != 0 || c.ResetAt != 0) && !zerolog.VerifSetBurstState(s, c.Cnt, c.ResetAt) {
+			panic("preset of a BurstSampler state requested although presetOK is false")
+		}
 		b.s = s
 	case "level":
 		var ss [5]zerolog.Sampler
@@ -211,6 +215,26 @@ func runGateImpl(g gateCfg, h []ev, rec *[]recCall) ([]bool, *built) {
 		out[i] = admitted
 	}
 	return out, b
+}
+
+// presetOK: the overlay accessors found the private counter / window fields (located by shape, see
+// shim/verif_export.go).  When they did not, only fresh samplers are generated.
+var presetBasicOK, presetBurstOK = true, true
+
+func (c *SCfg) stripPresets() {
+	if c == nil {
+		return
+	}
+	if c.Kind == "basic" && !presetBasicOK {
+		c.Cnt = 0
+	}
+	if c.Kind == "burst" && !presetBurstOK {
+		c.Cnt, c.ResetAt = 0, 0
+	}
+	c.Next.stripPresets()
+	for _, s := range c.Sub {
+		s.stripPresets()
+	}
 }
 
 var c13levels = []int{-128, -2, -1, 0, 1, 2, 3, 4, 5, 6, 8, 127}
@@ -504,7 +528,13 @@ func runC13(c *Ctx) {
 	c.Res.Rule = "a case is (gate configuration incl. sampler tree with preset counters, history of (clock,level) events); bounded-exhaustive histories over a 5-point clock alphabet for small Burst/Period/N, then seeded random trees (depth<=3) and histories (<=60 events, non-monotonic clocks, int64 extremes, counters near 2^32); non-trivial = at least one admitted and one rejected event; distinct by (tree, history) text"
 	c.OpenShards("From Verif Require Import Base.Prelude Misc.Level Lts.Sampler Harness.C13H.",
 		"(gate * list (Z * Z)) * list bool", "mismatches c13_run c13_eqb", 1000)
+	presetBasicOK = zerolog.VerifSetBasicCounter(&zerolog.BasicSampler{}, 1)
+	presetBurstOK = zerolog.VerifSetBurstState(&zerolog.BurstSampler{}, 1, 1)
+	if !presetBasicOK || !presetBurstOK {
+		c.Res.Broken = append(c.Res.Broken, fmt.Sprintf("sampler private state not found by shape (basic counter %v, burst counter/window %v): the model's state layout no longer matches the source; only fresh samplers are generated", presetBasicOK, presetBurstOK))
+	}
 	emit := func(g gateCfg, h []ev) {
+		g.Sampler.stripPresets()
 		got, _ := runGateImpl(g, h, nil)
 		c13monitor(c, g, h, got)
 		term := fmt.Sprintf("((%s, %s), %s)", g.coq(), histCoq(h), CoqBools(got))
@@ -591,6 +621,7 @@ func runC13(c *Ctx) {
 		}
 		if !r.Chance(5) {
 			g.Sampler = genSampler(r, 3)
+			g.Sampler.stripPresets()
 		}
 		n := 1 + r.Intn(60)
 		h := genHistory(r, n, r.Chance(6))
@@ -641,8 +672,8 @@ func runC13(c *Ctx) {
 				s.Sample(zerolog.InfoLevel)
 			}
 			c.Res.ExtraCoverage["k5_real_calls"] = uint64(1<<32) - 4
-		} else {
-			zerolog.VerifSetBasicCounter(s, math.MaxUint32-3)
+		} else if !zerolog.VerifSetBasicCounter(s, math.MaxUint32-3) {
+			c.Note("K5 quick replay skipped: BasicSampler counter not found")
 		}
 		for i := 0; i < 5; i++ {
 			got = append(got, s.Sample(zerolog.InfoLevel))
